@@ -195,4 +195,4 @@ PROP = Prop(
                     quick_shards=4, min_nontrivial=150, doc="differential: virtual vs materialised")],
 )
 
-RULE_EXTRA = ('full and partial AUC on all 8 axis pairs that plot a rate of one class against a rate of the other; float32 / long-double containers; the virtual and the materialised object are asked in alternating order with one shared target array.')
+RULE_EXTRA = ('full and partial AUC on all 8 axis pairs that plot a rate of one class against a rate of the other; float32 / long-double containers; the virtual and the materialised object are asked in alternating order with one shared target array. Thresholds under the six alias names; easy counts as np.int8 / np.uint8 / np.int32 / np.uint64 scalars (up to 127).')
